@@ -49,6 +49,8 @@ var c06Faults = []c06Fault{
 	{"callable", "5()"}, {"callable", "arr()"}, {"callable", "obj.a()"},
 	{"arity", "f1()"}, {"arity", "f1(1, 2)"},
 	{"builtin", bn.BLen + "(5)"}, {"builtin", bn.BRemove + "(arr, 9)"}, {"builtin", bn.BMin + "()"}, {"builtin", bn.BDelKey + "(obj, \"nope\")"},
+	// a failing base under a chain of further accesses / calls
+	{"index", "arr[5][0][1]"}, {"property", "obj.nope.a.b"}, {"callable", "5()()()"}, {"index", "arr[5].a[0]"}, {"undefined", "zz[0][1]"}, {"undefined", "zz.a.b"}, {"undefined", "zz()()"},
 	{"builtin", bn.BInput + "(5)"}, {"builtin", bn.BAbs + "(nil)"}, {"builtin", bn.BLen + "()"}, {"builtin", bn.BPush + "(arr)"}, {"builtin", bn.BKeys + "(arr)"},
 }
 
